@@ -371,7 +371,7 @@ Hypothesis keyf_len : forall n, length (keyf n) = 4%nat.
 Lemma ws_TR_init : ws_TR keyf ws_init [] [] None.
 Proof. exists [], []. cbn. repeat split; [constructor|]. left. split; reflexivity. Qed.
 
-Lemma ws_run_inv c ops : conn_first ops = true -> RInv wsst (ws_TR keyf) c (ws_run keyf c ops).
+Lemma ws_run_inv c ops : conn_once ops = true -> RInv wsst (ws_TR keyf) c (ws_run keyf c ops).
 Proof.
   intros Hcf.
   apply (run_inv wsst (ws_send keyf) (ws_TR keyf) (ws_TR_none keyf) (ws_send_spec keyf)); [assumption|apply ws_TR_init].
@@ -402,19 +402,19 @@ Proof.
   unfold unsent_q. cbn [map concat]. rewrite zlen_app. pose proof (zlen_nonneg (concat (map offered q))). lia.
 Qed.
 
-Lemma ws_acc_deframe c ops : conn_first ops = true ->
-  zlen (concat (enq_bytes ops)) < 9223372036854775808 ->
+Lemma ws_acc_deframe c ops : conn_once ops = true ->
+  zlen (concat (queued_bytes ops)) < 9223372036854775808 ->
   exists chunks rest,
     deframe (wire_of (r_trace (ws_run keyf c ops))) = Some (chunks, rest)
     /\ concat chunks = acc_of (r_trace (ws_run keyf c ops))
-    /\ acc_of (r_trace (ws_run keyf c ops)) ++ unsent (r_st (ws_run keyf c ops)) = concat (enq_bytes ops).
+    /\ acc_of (r_trace (ws_run keyf c ops)) ++ unsent (r_st (ws_run keyf c ops)) = concat (queued_bytes ops).
 Proof.
   intros Hcf Hsz. destruct (ws_run_inv c ops Hcf) as [[done HI] _ _].
-  pose proof (IB_stream _ _ _ _ _ _ _ _ HI) as Hs. pose proof (ib_tr _ _ _ _ _ _ _ _ HI) as Ht.
-  unfold ws_run in Hs. rewrite run_hist in Hs. unfold hist_of in Hs. rewrite hist_from_bytes in Hs.
+  pose proof (IB_stream _ _ _ _ _ _ _ _ _ HI) as Hs. pose proof (ib_tr _ _ _ _ _ _ _ _ _ HI) as Ht.
+  unfold ws_run in Hs. rewrite run_hist in Hs. fold (queued_bytes ops) in Hs.
   fold (ws_run keyf c ops) in Hs.
   assert (Hsum : zlen (acc_of (r_trace (ws_run keyf c ops))) + zlen (unsent_q (outq (r_st (ws_run keyf c ops))))
-                 = zlen (concat (enq_bytes ops))) by (rewrite <- Hs, zlen_app; reflexivity).
+                 = zlen (concat (queued_bytes ops))) by (rewrite <- Hs, zlen_app; reflexivity).
   pose proof (zlen_nonneg (acc_of (r_trace (ws_run keyf c ops)))).
   pose proof (zlen_nonneg (unsent_q (outq (r_st (ws_run keyf c ops))))).
   apply ws_TR_deframe in Ht as (chunks & rest & Hd & Hc & _); [| lia |].
@@ -422,18 +422,18 @@ Proof.
   - intros d Hd. apply head_off_le in Hd. lia.
 Qed.
 
-Lemma ws_stream c ops : conn_first ops = true ->
-  zlen (concat (enq_bytes ops)) < 9223372036854775808 ->
+Lemma ws_stream c ops : conn_once ops = true ->
+  zlen (concat (queued_bytes ops)) < 9223372036854775808 ->
   exists chunks rest,
     deframe (wire_of (r_trace (ws_run keyf c ops))) = Some (chunks, rest)
-    /\ concat chunks ++ unsent (r_st (ws_run keyf c ops)) = concat (enq_bytes ops).
+    /\ concat chunks ++ unsent (r_st (ws_run keyf c ops)) = concat (queued_bytes ops).
 Proof.
   intros Hcf Hsz. destruct (ws_acc_deframe c ops Hcf Hsz) as (chunks & rest & Hd & Hc & Hs).
   exists chunks, rest. split; [assumption|]. rewrite Hc. exact Hs.
 Qed.
 
-Lemma ws_frames_wf c ops : conn_first ops = true ->
-  zlen (concat (enq_bytes ops)) < 9223372036854775808 ->
+Lemma ws_frames_wf c ops : conn_once ops = true ->
+  zlen (concat (queued_bytes ops)) < 9223372036854775808 ->
   let w := wire_of (r_trace (ws_run keyf c ops)) in
   forallb ws_frame_wf (fst (parse_frames (length w) w)) = true.
 Proof.
@@ -441,29 +441,36 @@ Proof.
   apply deframe_some_wf in Hd as (Hwf & _). exact Hwf.
 Qed.
 
-Lemma ws_qos0_published c ops tr1 e tr2 i : conn_first ops = true ->
-  zlen (concat (enq_bytes ops)) < 9223372036854775808 ->
+Lemma zlen_concat_prefix (pre : list opkt) p post :
+  zlen (concat (map p_bytes (pre ++ [p]))) <= zlen (concat (map p_bytes (pre ++ p :: post))).
+Proof.
+  replace (pre ++ p :: post) with ((pre ++ [p]) ++ post) by (rewrite <- app_assoc; reflexivity).
+  rewrite (map_app _ (pre ++ [p])), concat_app, zlen_app.
+  pose proof (zlen_nonneg (concat (map p_bytes post))). lia.
+Qed.
+
+Lemma ws_qos0_published c ops tr1 e tr2 i : conn_once ops = true ->
+  zlen (concat (queued_bytes ops)) < 9223372036854775808 ->
   r_trace (ws_run keyf c ops) = tr1 ++ e :: tr2 -> e = CbPublish i \/ e = SetPublished i ->
-  0 <= i
-  /\ (exists p, nth_error (hist_of ops) (Z.to_nat i) = Some p /\ p_kind p = KPub0 /\ p_id p = i)
-  /\ exists chunks, deframe (wire_of tr1) = Some (chunks, [])
-                    /\ concat chunks = concat (firstn (S (Z.to_nat i)) (enq_bytes ops)).
+  exists pre p post,
+    hist_of ops = pre ++ p :: post /\ p_kind p = KPub0 /\ p_id p = i
+    /\ exists chunks, deframe (wire_of tr1) = Some (chunks, [])
+                      /\ concat chunks = concat (map p_bytes (pre ++ [p])).
 Proof.
   intros Hcf Hsz Htr He. destruct (ws_run_inv c ops Hcf) as [[done HI] _ _].
-  pose proof (ib_pubs _ _ _ _ _ _ _ _ HI) as Hp. rewrite Htr in Hp.
+  pose proof (ib_pubs _ _ _ _ _ _ _ _ _ HI) as Hp. rewrite Htr in Hp.
   apply (pubs_ok_split wsst (ws_TR keyf) _ _ _ _ i) in Hp; [|assumption].
-  destruct Hp as (H0 & Hex & Hl & (t & Ht)).
-  unfold ws_run in Hex, Hl. rewrite run_hist in Hex, Hl.
-  unfold hist_of in Hl. rewrite <- firstn_map, hist_from_bytes in Hl.
-  split; [assumption|]. split; [assumption|].
-  pose proof (zlen_concat_firstn (S (Z.to_nat i)) (enq_bytes ops)) as Hle.
+  destruct Hp as (pre & p & post & Hh & Hk & Hi & Hl & (t & Ht)).
+  unfold ws_run in Hh. rewrite run_hist in Hh.
+  exists pre, p, post. split; [assumption|]. split; [assumption|]. split; [assumption|].
+  pose proof (zlen_concat_prefix pre p post) as Hle. rewrite <- Hh in Hle. fold (queued_bytes ops) in Hle.
   pose proof Ht as (fs & part & _ & _ & _ & [[Hb _]|(_ & d & n & Hod & _)]); [|discriminate].
   apply ws_TR_deframe in Ht as (chunks & rest & Hd & Hc & Hr); [| rewrite Hl; lia | intros d Hd; discriminate].
   exists chunks. rewrite <- (Hr Hb). split; [assumption|]. rewrite Hc. exact Hl.
 Qed.
 
-Lemma ws_qos0_once c ops : conn_first ops = true ->
-  zlen (concat (enq_bytes ops)) < 9223372036854775808 ->
+Lemma ws_qos0_once c ops : conn_once ops = true ->
+  zlen (concat (queued_bytes ops)) < 9223372036854775808 ->
   let r := ws_run keyf c ops in
   NoDup (setpub_ids (r_trace r)) /\ NoDup (cbpub_ids (r_trace r))
   /\ exists done chunks rest,
@@ -474,13 +481,13 @@ Lemma ws_qos0_once c ops : conn_first ops = true ->
        /\ cbpub_ids (r_trace r) = cbpub_of c done.
 Proof.
   intros Hcf Hsz. cbn zeta. destruct (ws_run_inv c ops Hcf) as [[done HI] _ _].
-  destruct (IB_once _ _ _ _ _ _ _ _ HI) as [N1 N2]. split; [assumption|]. split; [assumption|].
+  destruct (IB_once _ _ _ _ _ _ _ _ _ HI) as [N1 N2]. split; [assumption|]. split; [assumption|].
   destruct (ws_acc_deframe c ops Hcf Hsz) as (chunks & rest & Hd & Hc & _).
-  exists done, chunks, rest. pose proof HI as [H1 H2 _ _ H5 H6 _ _].
+  exists done, chunks, rest. pose proof HI as [H1 H2 _ _ H5 H6 _ _ _].
   unfold ws_run in H1. rewrite run_hist in H1. rewrite Hc. repeat split; assumption.
 Qed.
 
-Lemma ws_want_write c ops : conn_first ops = true ->
+Lemma ws_want_write c ops : conn_once ops = true ->
   let st := r_st (ws_run keyf c ops) in
   unsent st <> [] -> want_write st = true /\ (sock st = true -> regw st = true).
 Proof.
@@ -489,7 +496,7 @@ Proof.
   intros Hq. apply H. unfold unsent. rewrite Hq. reflexivity.
 Qed.
 
-Lemma ws_terminates c ops : conn_first ops = true -> ~ In RcOutOfFuel (r_rcs (ws_run keyf c ops)).
+Lemma ws_terminates c ops : conn_once ops = true -> ~ In RcOutOfFuel (r_rcs (ws_run keyf c ops)).
 Proof. intros Hcf. apply (ws_run_inv c ops Hcf). Qed.
 
 End WsTheorems.
